@@ -408,20 +408,39 @@ def codec_open(it, codec, target, mode="rb"):
     return inner
 
 
-class _ZstdDecompressor:
+class _ZstdContext:
+    """zstandard (de)compression context: it serves ONE stream at a time; starting a second stream while the first one is still open makes both
+    streams share the native context and corrupt each other (assumed contract; recorded as a 'zstd-context-shared' event and as unreadable content)."""
+
+    def __init__(self, it, mode):
+        self.it, self.mode, self.streams = it, mode, []
+
+    def _start(self, fp):
+        live = [s_ for s_ in self.streams if not s_.closed]
+        stream = codec_open(self.it, "zstd", fp, self.mode)
+        if live:
+            self.it.vfs_events.append(("zstd-context-shared", getattr(fp, "name", "fp")))
+            stream.segs = [(b"\x00corrupted: two streams on one zstd context\x00", 48)]
+            for s_ in live:
+                s_.segs = [(b"\x00corrupted: two streams on one zstd context\x00", 48)]
+        self.streams.append(stream)
+        return stream
+
+
+class _ZstdDecompressor(_ZstdContext):
     def __init__(self, it):
-        self.it = it
+        super().__init__(it, "rb")
 
     def stream_reader(self, fp, *a, **k):
-        return codec_open(self.it, "zstd", fp, "rb")
+        return self._start(fp)
 
 
-class _ZstdCompressor:
+class _ZstdCompressor(_ZstdContext):
     def __init__(self, it):
-        self.it = it
+        super().__init__(it, "wb")
 
     def stream_writer(self, fp, *a, **k):
-        return codec_open(self.it, "zstd", fp, "wb")
+        return self._start(fp)
 
 
 class ZstdModel:
